@@ -237,12 +237,12 @@ PROPS = {
         "rule": "(1) single-site sweep: for every schedule point the instrumenter inserts into workflow.go and the two providers (lock, unlock, "
                 "channel send / receive, select and wake-up, wait-group, cancel, goroutine start, entry of every run-loop / running-step method; "
                 "~285 sites) a delay longer than the fallback detector's 3 x 10 ms window - 60 ms on the first 3 passes, 60 ms on the last pass (sites "
-                "passed more than 3 times) and 40 ms on every pass (4-12 passes); pairs whose motif never passes the site are skipped - on each of 15 canonical "
-                "workflows whose meaning fixes one result (single, chain, wait_for, enabled from upstream, deploy expression, diamond, failing "
-                "prerequisite, crash, deploy failure, disabled + or-disabled, one-of consumer, wait-optional with failing source, foreach, foreach next to five plugin steps, nested "
+                "passed more than 3 times) and 40 ms on every pass (4-12 passes); pairs whose motif never passes the site are skipped - on each of 18 canonical "
+                "workflows whose meaning fixes one result (single, chain, join of two steps finishing 5 ms apart, wait_for, enabled from upstream, deploy expression, diamond, failing "
+                "prerequisite, crash, deploy failure, disabled + or-disabled, one-of consumer, wait-optional with failing source, foreach, foreach next to five plugin steps, five loops fed while the result is returned, a loop waiting for its enabled value closed beside finishing siblings, nested "
                 "foreach); both tiers visit all sites (exhaustive over sites x motifs x delay variants); the tiers differ in the number of random plans. (2) rapid: random deterministic "
                 "single-output programs under random plans of 1-6 sites with 1-40 ms delays. oracle: the result equals the reference (in "
-                "particular never 'no steps running' when the result is producible); a run that blocks for ever under a plan is a violation. non-trivial = the planned site was hit in the run; distinct "
+                "particular never 'no steps running' when the result is producible); a run that blocks for ever, or a process that dies, under a plan is a violation. non-trivial = the planned site was hit in the run; distinct "
                 "= FNV-64 of (program, plan)",
         "quick": {"cases": 240, "shards": 16, "shrinktime": "30s", "timeout_s": 900},
         "thorough": {"cases": 3200, "shards": 16, "shrinktime": "120s", "timeout_s": 3300},
@@ -272,7 +272,7 @@ PROPS = {
         "rule": "the generators of the concurrency-heavy checks are run in a binary built with the Go race detector (and schedule points): exit-path "
                 "cases of C05/C06 (cancellation at generated instants, launch / probe failures), loops of C13, run histories of C14 (overlapping "
                 "runs, twin, re-preparation) preceded by 0-4 concurrent preparations of the same text, provider histories of C12 with delay plans, and pairs of C09's sweep (a canonical workflow with one schedule "
-                "point it passes held for 40-60 ms). oracle: a race report counts when, for one of the two racing accesses, the first frame outside the Go standard library is a "
+                "point it passes held for 40-60 ms); before the random part, systematically: the motifs join and foreach-3 with every schedule point they pass held 40 ms on every pass (8 attempts at run-loop points of join). oracle: a race report counts when, for one of the two racing accesses, the first frame outside the Go standard library is a "
                 "source file of the repository; reports with an access on a plugin-side goroutine (SDK ATP server, scripted plugin) are ignored "
                 "because that code is in another process in reality. non-trivial = the case has overlapping engine activity (>= 2 steps, a loop, "
                 "overlapping runs or preparations, a concurrent provider round)",
